@@ -9,6 +9,7 @@ import PydlVerif.Lemmas.BSplineFit
 import PydlVerif.Props.C08
 import PydlVerif.Lemmas.BSplineMarsden
 import PydlVerif.Lemmas.BandChol
+import PydlVerif.Lemmas.BSplineFit2
 import Mathlib.Analysis.Real.Sqrt
 import Mathlib.Algebra.BigOperators.Fin
 namespace PydlVerif.C09
@@ -1312,6 +1313,215 @@ theorem fit_ldlt_status0_pos_def (b : BS K) (xs ys ws : List K) (perm : List ℕ
     rw [get2_map_extract _ _ r q hq, normalSystem_get rows ys ws lower upper xs.length b.nord _ r q hr (by omega)]) i j hi hj
 
 end kernels
+
+/-! ## Extension 3: the two-dimensional fit (x2 given, npoly ≥ 1; Model/BSplineFit2.lean) -/
+
+section twod
+open PydlVerif.BSplineFit2 PydlVerif.BSplineFit2Lemmas PydlVerif.BandChol PydlVerif.BandCholLemmas
+
+local notation "assemblePK" => @assembleP _ (fieldScalar _)
+local notation "normalSystemPK" => @normalSystemP _ (fieldScalar _)
+local notation "get2K" => @get2 _ (fieldScalar _)
+local notation "kernelsLdltK" => @kernelsLdlt _ (fieldScalar _)
+
+/-- **assembleP_one**: for `npoly = 1` the blocked assembly of the 2-D model is the assembly of the 1-D model -/
+theorem assembleP_one (a1 : ℕ → ℕ → K) (y w : ℕ → K) (lower upper : Array ℤ) (nx bw nseg : ℕ) :
+    assemblePK 1 a1 y w lower upper nx bw nseg = assembleK a1 y w lower upper nx bw nseg :=
+  BSplineFit2Lemmas.assembleP_one a1 y w lower upper nx bw nseg
+
+/-- **assembleP_is_normal** (the `npoly`-general `assemble_is_normal`): for EVERY `npoly`, bandwidth and size the blocked
+`bi/bo` scatter of `fit` (`itop = k*npoly`; model `assembleP`) builds the lower band of `AᵀWA` and the vector `AᵀWy`, where
+`A[p][c] = designP npoly a1 iv bw p c` has the `bw` values of row `p` of the action matrix in the columns
+`iv p * npoly .. iv p * npoly + bw - 1`.  `Rows` as in `assemble_is_normal` (proved for sorted points: `rows_action`;
+`action(x, x2=...)` returns the `lower/upper` of the 1-D `action`). -/
+theorem assembleP_is_normal (np : ℕ) (a1 : ℕ → ℕ → K) (y w : ℕ → K) (lower upper : Array ℤ) (iv : ℕ → ℕ) (nx bw nseg : ℕ)
+    (hrows : Rows lower upper iv nx nseg) :
+    (∀ c r, r < bw → (assemblePK np a1 y w lower upper nx bw nseg).1 (c * bw + r) =
+      ∑ p ∈ range nx, designP np a1 iv bw p c * (designP np a1 iv bw p (c + r) * w p)) ∧
+    (∀ c, (assemblePK np a1 y w lower upper nx bw nseg).2 c = ∑ p ∈ range nx, y p * (designP np a1 iv bw p c * w p)) :=
+  BSplineFit2Lemmas.assembleP_is_normal np a1 y w lower upper iv nx bw nseg hrows
+
+/-- **tensor_design**: when the action matrix is the one `action(x, x2=...)` builds (`action[p][ii*npoly+jj] = bf1[p][ii] *
+temppoly[p][jj]`, `tensorAct`), column `j*npoly + l` of the blocked design matrix is `B_j(x_p) · P_l(x2_p)`: the tensor design matrix -/
+theorem tensor_design (np nord : ℕ) (bf P : ℕ → ℕ → K) (iv : ℕ → ℕ) (p j l : ℕ) (hl : l < np) :
+    designP np (tensorAct np bf P) iv (nord * np) p (j * np + l) = design bf iv nord p j * P p l :=
+  BSplineFit2Lemmas.tensor_design np nord bf P iv p j l hl
+
+/-- **assembleP_is_normal_tensor**: the system `fit(..., x2=...)` assembles is the normal system of the tensor basis:
+`beta[j*npoly+l] = Σ_p y_p B_j(x_p) P_l(x2_p) w_p` and, inside the band,
+`alpha[c'-c][c] = Σ_p w_p (B_j P_l)(p) (B_j' P_l')(p)` for `c = j*npoly+l ≤ c' = j'*npoly+l'` -/
+theorem assembleP_is_normal_tensor (np nord : ℕ) (bf P : ℕ → ℕ → K) (y w : ℕ → K) (lower upper : Array ℤ) (iv : ℕ → ℕ)
+    (nx nseg : ℕ) (hrows : Rows lower upper iv nx nseg) :
+    (∀ j l j' l', l < np → l' < np → j * np + l ≤ j' * np + l' → (j' * np + l') - (j * np + l) < nord * np →
+      (assemblePK np (tensorAct np bf P) y w lower upper nx (nord * np) nseg).1
+          ((j * np + l) * (nord * np) + ((j' * np + l') - (j * np + l)))
+        = ∑ p ∈ range nx, (design bf iv nord p j * P p l) * ((design bf iv nord p j' * P p l') * w p)) ∧
+    (∀ j l, l < np → (assemblePK np (tensorAct np bf P) y w lower upper nx (nord * np) nseg).2 (j * np + l)
+        = ∑ p ∈ range nx, y p * ((design bf iv nord p j * P p l) * w p)) := by
+  obtain ⟨h1, h2⟩ := assembleP_is_normal np (tensorAct np bf P) y w lower upper iv nx (nord * np) nseg hrows
+  refine ⟨fun j l j' l' hl hl' hle hlt => ?_, fun j l hl => ?_⟩
+  · rw [h1 _ _ hlt]
+    apply Finset.sum_congr rfl
+    intro p _
+    rw [show j * np + l + (j' * np + l' - (j * np + l)) = j' * np + l' by omega, tensor_design np nord bf P iv p j l hl,
+      tensor_design np nord bf P iv p j' l' hl']
+  · rw [h2]
+    apply Finset.sum_congr rfl
+    intro p _
+    rw [tensor_design np nord bf P iv p j l hl]
+
+/-- optimality in matrix form for the blocked system (any action matrix `a1`): a vector that solves the banded system
+`assembleP` built minimises `Σ_p w_p (y_p - Σ_c A[p][c] z_c)²`, `A = designP` -/
+theorem fit2_optimum_design (np : ℕ) (a1 : ℕ → ℕ → K) (y w : ℕ → K) (lower upper : Array ℤ) (iv : ℕ → ℕ) (nx bw nseg n : ℕ)
+    (hrows : Rows lower upper iv nx nseg) (hw : ∀ p, 0 ≤ w p) (sol : ℕ → K)
+    (hsol : ∀ c, c < n → ∑ c' ∈ range n, bandFull (assemblePK np a1 y w lower upper nx bw nseg).1 bw c c' * sol c'
+      = (assemblePK np a1 y w lower upper nx bw nseg).2 c) (z : Fin n → K) :
+    Lsq.Q (fun (p : Fin nx) (c : Fin n) => designP np a1 iv bw p c) (fun p => w p) (fun p => y p) (fun c => sol c)
+      ≤ Lsq.Q (fun (p : Fin nx) (c : Fin n) => designP np a1 iv bw p c) (fun p => w p) (fun p => y p) z := by
+  obtain ⟨hα, hβ⟩ := assembleP_is_normal np a1 y w lower upper iv nx bw nseg hrows
+  exact Lsq.lsq_optimum _ _ _ _ z (fun p => hw p)
+    (normal_of_band (designP np a1 iv bw) w y nx n bw _ _ sol
+      (fun p c c' h => design_band a1 (fun q => iv q * np) bw p c c' h) hα hβ hsol)
+
+theorem Q_tensor_eq (np nord m nx : ℕ) (bf P : ℕ → ℕ → K) (iv : ℕ → ℕ) (y w z : ℕ → K) :
+    Lsq.Q (fun (p : Fin nx) (c : Fin (m * np)) => designP np (tensorAct np bf P) iv (nord * np) p c) (fun p => w p) (fun p => y p)
+      (fun c => z c)
+      = ∑ p ∈ range nx, w p * (y p - ∑ j ∈ range m, ∑ l ∈ range np, z (j * np + l) * (design bf iv nord p j * P p l)) ^ 2 := by
+  unfold Lsq.Q
+  rw [← Finset.sum_range (fun p => w p * (y p - ∑ j : Fin (m * np), designP np (tensorAct np bf P) iv (nord * np) p j * z j) ^ 2)]
+  apply Finset.sum_congr rfl
+  intro p _
+  have e : ∑ j : Fin (m * np), designP np (tensorAct np bf P) iv (nord * np) p j * z j
+      = ∑ j ∈ range m, ∑ l ∈ range np, z (j * np + l) * (design bf iv nord p j * P p l) := by
+    rw [← Finset.sum_range (fun j => designP np (tensorAct np bf P) iv (nord * np) p j * z j), sum_blocks]
+    apply Finset.sum_congr rfl
+    intro j _
+    apply Finset.sum_congr rfl
+    intro l hl
+    rw [tensor_design np nord bf P iv p j l (Finset.mem_range.1 hl)]
+    ring
+  rw [e]
+
+/-- **fit2_optimum_solves** (the `npoly`-general `fit_optimum_solves`): `bf` = the B-spline rows of the points, `P` = the
+basis values in the second variable, `m` B-spline coefficients per polynomial term.  With weights `≥ 0`, a vector `sol`
+that solves the banded system which `fit(..., x2=...)` assembles from the tensor action matrix minimises
+`Σ_p invvar_p (y_p - Σ_j Σ_l c_{j,l} B_j(x_p) P_l(x2_p))²` over ALL coefficient vectors (`c_{j,l} = z (j*npoly + l)`,
+the order in which `fit` stores and `value` reads the coefficients) -/
+theorem fit2_optimum_solves (np nord m : ℕ) (bf P : ℕ → ℕ → K) (y w : ℕ → K) (lower upper : Array ℤ) (iv : ℕ → ℕ)
+    (nx nseg : ℕ) (hrows : Rows lower upper iv nx nseg) (hw : ∀ p, 0 ≤ w p) (sol : ℕ → K)
+    (hsol : ∀ c, c < m * np → ∑ c' ∈ range (m * np),
+      bandFull (assemblePK np (tensorAct np bf P) y w lower upper nx (nord * np) nseg).1 (nord * np) c c' * sol c'
+      = (assemblePK np (tensorAct np bf P) y w lower upper nx (nord * np) nseg).2 c) (z : ℕ → K) :
+    ∑ p ∈ range nx, w p * (y p - ∑ j ∈ range m, ∑ l ∈ range np, sol (j * np + l) * (design bf iv nord p j * P p l)) ^ 2
+      ≤ ∑ p ∈ range nx, w p * (y p - ∑ j ∈ range m, ∑ l ∈ range np, z (j * np + l) * (design bf iv nord p j * P p l)) ^ 2 := by
+  have := fit2_optimum_design np (tensorAct np bf P) y w lower upper iv nx (nord * np) nseg (m * np) hrows hw sol hsol (fun c => z c)
+  rw [Q_tensor_eq, Q_tensor_eq] at this
+  exact this
+
+/-- in terms of the evaluated spline (C08 `splineAt`, what `value` computes per polynomial term): the model value
+`Σ_j Σ_l c_{j,l} B_j(x_p) P_l(x2_p)` is `Σ_l P_l(x2_p) · spline_{c_{·,l}}(x_p)` -/
+theorem tensor_row_is_spline (t : ℕ → K) (k n np : ℕ) (hk : 1 ≤ k) (hkn : k ≤ n) (x : ℕ → K) (P : ℕ → ℕ → K) (p : ℕ) (z : ℕ → K) :
+    ∑ j ∈ range n, ∑ l ∈ range np, z (j * np + l) * (design (basisRow t k n x) (segOf t k n x) k p j * P p l)
+      = ∑ l ∈ range np, P p l * splineAtK t (fun j => z (j * np + l)) k n (x p) := by
+  rw [Finset.sum_comm]
+  apply Finset.sum_congr rfl
+  intro l _
+  rw [← design_row_is_spline t k n hk hkn x p (fun j => z (j * np + l)), Finset.mul_sum]
+  apply Finset.sum_congr rfl
+  intro j _
+  ring
+
+/-! ### the blocked system with the `L D Lᵀ` kernels: no solver hypothesis -/
+
+theorem normalSystemP_shape (np : ℕ) (rows : List (List K)) (ys ws : List K) (lower upper : Array ℤ) (nx nord nn : ℕ) :
+    (normalSystemPK np rows ys ws lower upper nx nord nn).1.size = np * nord ∧
+    (0 < np * nord → ((normalSystemPK np rows ys ws lower upper nx nord nn).1[0]!).size = nn * np + np * nord) ∧
+    (normalSystemPK np rows ys ws lower upper nx nord nn).2.size = nn * np + np * nord := by
+  unfold normalSystemP
+  refine ⟨by simp, fun h => ?_, by simp⟩
+  simp only []
+  rw [getElem!_mapRange _ (np * nord) 0 h]
+  simp
+
+theorem normalSystemP_get (np : ℕ) (rows : List (List K)) (ys ws : List K) (lower upper : Array ℤ) (nx nord nn r c : ℕ)
+    (hr : r < np * nord) (hc : c < nn * np + np * nord) :
+    get2K (normalSystemPK np rows ys ws lower upper nx nord nn).1 r c =
+      (assemblePK np (fun p a => ((rows.map List.toArray).toArray[p]!)[a]!) (fun p => ys.toArray[p]!)
+        (fun p => ws.toArray[p]!) lower upper nx (np * nord) (nn - nord + 1)).1 (c * (np * nord) + r) := by
+  unfold normalSystemP get2
+  simp only []
+  rw [getElem!_mapRange _ (np * nord) r hr, getElem!_mapRange _ (nn * np + np * nord) c hc]
+
+theorem normalSystemP_get_beta (np : ℕ) (rows : List (List K)) (ys ws : List K) (lower upper : Array ℤ) (nx nord nn c : ℕ)
+    (hc : c < nn * np + np * nord) :
+    (normalSystemPK np rows ys ws lower upper nx nord nn).2[c]! =
+      (assemblePK np (fun p a => ((rows.map List.toArray).toArray[p]!)[a]!) (fun p => ys.toArray[p]!)
+        (fun p => ws.toArray[p]!) lower upper nx (np * nord) (nn - nord + 1)).2 c := by
+  unfold normalSystemP
+  simp only []
+  rw [getElem!_mapRange _ (nn * np + np * nord) c hc]
+
+/-- **fit2_system_solved_ldlt**: whenever `cholesky_band` with the proved `L D Lᵀ` kernels answers a factor for the system
+`fit(..., x2=...)` hands it (`normalSystemP`: `alpha` of shape `npoly*nord × (nn*npoly + npoly*nord)`, `beta`), the vector
+`cholesky_solve` returns SOLVES the banded system `assembleP` built - for every `npoly`, with no solver hypothesis -/
+theorem fit2_system_solved_ldlt (np : ℕ) (rows : List (List K)) (ys ws : List K) (lower upper : Array ℤ) (nx nord nn : ℕ)
+    (hbw : 0 < np * nord) (hn : 0 < nn * np) (mininf : K) (a : Array (Array K))
+    (hchol : choleskyBandK kernelsLdltK (normalSystemPK np rows ys ws lower upper nx nord nn).1 mininf = .ok (.factor a)) :
+    ∀ c, c < nn * np → ∑ c' ∈ range (nn * np),
+        bandFull (assemblePK np (fun p a => ((rows.map List.toArray).toArray[p]!)[a]!) (fun p => ys.toArray[p]!)
+            (fun p => ws.toArray[p]!) lower upper nx (np * nord) (nn - nord + 1)).1 (np * nord) c c'
+          * (choleskySolveK kernelsLdltK a (normalSystemPK np rows ys ws lower upper nx nord nn).2)[c']!
+        = (assemblePK np (fun p a => ((rows.map List.toArray).toArray[p]!)[a]!) (fun p => ys.toArray[p]!)
+            (fun p => ws.toArray[p]!) lower upper nx (np * nord) (nn - nord + 1)).2 c := by
+  intro c hc
+  obtain ⟨h1, h2, h3⟩ := normalSystemP_shape np rows ys ws lower upper nx nord nn
+  have key := choleskyBand_ldlt_solves _ _ mininf (np * nord) (nn * np) hbw hn h1 (h2 hbw) h3 a hchol c hc
+  rw [normalSystemP_get_beta np rows ys ws lower upper nx nord nn c (by omega)] at key
+  rw [← key]
+  apply Finset.sum_congr rfl
+  intro c' hc'
+  rw [Finset.mem_range] at hc'
+  congr 1
+  rw [bandFull_eq_bandSym]
+  exact bandSym_congr _ _ (np * nord) (nn * np)
+    (fun r q hr hq => (normalSystemP_get np rows ys ws lower upper nx nord nn r q hr (by omega)).symm) c c' hc hc'
+
+/- FULL statement aimed at (the `npoly`-general `fit_is_optimum_ldlt`), NOT proved in this round:
+     fit2 kernelsLdlt b xs x2s ys ws perm = .ok out → out.status = 0 → (order ≥ 1, npoly ≥ 1, ≥ 2·nord good breakpoints, the
+     first nord unmasked, xs sorted, weights ≥ 0) →
+     ∃ sol, out.obj.coeff2 = putGood2 b.coeff2 goodbk sol npoly ∧ ∀ z,
+       Σ_p w_p (y_p - Σ_l P_l(x2norm x2_p)·splineAt gb (fun j => sol[j*npoly+l]) (x_p))² ≤ the same with z.
+   Proved below: `fit2_solved_is_optimum_partial` - the kernel call of `fit2` on the system `fit2` materialises
+   (`normalSystemP` of the rows `action` returned) yields a vector that minimises the objective of the blocked design matrix
+   of THOSE rows.  Missing: (i) unfolding `fit2` to its status-0 branch and `putGood2`/`BS2.goodcoeff` read-back in the order
+   `j*npoly+l`; (ii) that the rows `BS2.action` returns are `tensorAct` of the `bsplvn` rows and `polyBasis` (list-level
+   `flatMap/zipWith` indexing), which turns `designP` into `B_j·P_l` by `tensor_design`; (iii) `Rows` from `rows_action`
+   (the `lower/upper` are those of the 1-D `action`).  (ii)-(iii) are compared on every run (streams fit2d / fit2q). -/
+/-- **fit2_solved_is_optimum_partial** -/
+theorem fit2_solved_is_optimum_partial (np : ℕ) (rows : List (List K)) (ys ws : List K) (lower upper : Array ℤ) (iv : ℕ → ℕ)
+    (nx nord nn : ℕ) (hbw : 0 < np * nord) (hn : 0 < nn * np) (hrows : Rows lower upper iv nx (nn - nord + 1))
+    (hw : ∀ p : ℕ, 0 ≤ ws.toArray[p]!) (mininf : K) (a : Array (Array K))
+    (hchol : choleskyBandK kernelsLdltK (normalSystemPK np rows ys ws lower upper nx nord nn).1 mininf = .ok (.factor a))
+    (z : Fin (nn * np) → K) :
+    Lsq.Q (fun (p : Fin nx) (c : Fin (nn * np)) =>
+        designP np (fun p a => ((rows.map List.toArray).toArray[p]!)[a]!) iv (np * nord) p c)
+        (fun p => ws.toArray[p]!) (fun p => ys.toArray[p]!)
+        (fun c => (choleskySolveK kernelsLdltK a (normalSystemPK np rows ys ws lower upper nx nord nn).2)[(c : ℕ)]!)
+      ≤ Lsq.Q (fun (p : Fin nx) (c : Fin (nn * np)) =>
+        designP np (fun p a => ((rows.map List.toArray).toArray[p]!)[a]!) iv (np * nord) p c)
+        (fun p => ws.toArray[p]!) (fun p => ys.toArray[p]!) z :=
+  fit2_optimum_design np _ (fun p => ys.toArray[p]!) (fun p => ws.toArray[p]!) lower upper iv nx (np * nord) (nn - nord + 1) (nn * np)
+    hrows hw (fun c => (choleskySolveK kernelsLdltK a (normalSystemPK np rows ys ws lower upper nx nord nn).2)[c]!)
+    (fit2_system_solved_ldlt np rows ys ws lower upper nx nord nn hbw hn mininf a hchol) z
+
+/-- `maskpoints` of the 2-D fit (`err // npoly`) obeys the same status table as in 1-D -/
+theorem maskpointsP_status (mask : Array Bool) (nord np : ℕ) (err : List ℕ) :
+    ((maskpointsP mask nord np err).1 = -2 ∧ (maskpointsP mask nord np err).2 = mask) ∨
+    ((maskpointsP mask nord np err).1 = -1 ∧ (maskpointsP mask nord np err).2.size = mask.size ∧
+      ∀ i : ℕ, (maskpointsP mask nord np err).2[i]! = true → mask[i]! = true) :=
+  maskpoints_status mask nord (err.map (fun e => e / np))
+
+end twod
 
 /-! ## the hypotheses are satisfiable (non-vacuity) -/
 
